@@ -394,8 +394,11 @@ func genTCase(t *rapid.T) TCase {
 			c.Acts = append(c.Acts, TAct{Kind: "create", Name: rapid.SampledFrom([]string{"x", "y", "z"}).Draw(t, "name")})
 		case k <= 5:
 			c.Acts = append(c.Acts, TAct{Kind: "delete", Name: rapid.SampledFrom([]string{"x", "y", "z"}).Draw(t, "name")})
-		case k <= 8:
+		case k <= 7:
 			c.Acts = append(c.Acts, TAct{Kind: "reconcile"})
+		case k == 8:
+			// the leader's LAST tables go away: its table list becomes empty
+			c.Acts = append(c.Acts, TAct{Kind: "reconcile"}, TAct{Kind: "delete", Name: "x"}, TAct{Kind: "delete", Name: "y"}, TAct{Kind: "delete", Name: "z"}, TAct{Kind: "reconcile"})
 		default:
 			c.Acts = append(c.Acts, TAct{Kind: "restart-follower"})
 		}
@@ -434,6 +437,7 @@ func runTables(c TCase, o *vt.Obs) *vt.Failure {
 		_ = p.F.E.Manager.VerifReconcile()
 	}()
 	created, deleted := 0, 0
+	followerHad := false
 	for i, a := range c.Acts {
 		switch a.Kind {
 		case "create":
@@ -464,6 +468,15 @@ func runTables(c TCase, o *vt.Obs) *vt.Failure {
 			if fmt.Sprint(ln) != fmt.Sprint(fn) {
 				return vt.Failf(prop+"/table-set-differs", i, "after reconciliation the follower replicates %v, the leader has %v", fn, ln)
 			}
+			if len(ln) == 0 && followerHad {
+				all, _ := p.L.E.GetTables()
+				if len(all) == 0 {
+					o.Label("last-leader-table-deleted-then-reconciled")
+				} else {
+					o.Label("case-tables-deleted-but-leader-holds-other-tables")
+				}
+			}
+			followerHad = len(fn) > 0
 		}
 	}
 	o.NonTrivial = created > 0 && deleted > 0
